@@ -107,6 +107,53 @@ def run_e2e(job):
         shutil.rmtree(top, ignore_errors=True)
 
 
+FIRST_CMDS = [   # (cwd of the first-ever command, its spelling of x, cwd of the second command, its spelling)
+    ("d", "../x", "", "x"), ("d/e", "../../x", "", "./x"), ("", "x", "d", "../x"), ("d", "{P}/x", "", "x"),
+    ("d", "../x", "d/e", "../../x"), ("ld", "../x", "", "x"),
+]
+
+
+def run_first(job):
+    """Two commands in a row on a project that has no .redo yet, the first one issued from a subdirectory: the place of
+    the database must not depend on how the first command spelled its target."""
+    root, bindir, cwd1, s1, cwd2, s2, idx = job
+    import sqlite3
+    top = os.path.join(root, "f%d" % idx)
+    P = os.path.join(top, "p")
+    res = {"case": [cwd1, s1, cwd2, s2], "violations": []}
+    try:
+        os.makedirs(P + "/d/e")
+        os.makedirs(top + "/home")
+        os.symlink("d", P + "/ld")
+        Pr = os.path.realpath(P)
+        with open(P + "/src", "w") as fh:
+            fh.write("1\n")
+        with open(P + "/x.do", "w") as fh:
+            fh.write(E2E_SCRIPT)
+        trace = top + "/trace"
+        open(trace, "w").close()
+        env = common.base_env(bindir, top + "/home")
+        env["REDO_LOG"] = "0"
+        env["RV_TRACE"] = trace
+        errs = []
+        for cwd_rel, sp in ((cwd1, s1), (cwd2, s2)):
+            rc, out, err = common.run_cmd(["redo-ifchange", sp.replace("{P}", Pr)], os.path.join(P, cwd_rel) if cwd_rel else P, env, timeout=60)
+            errs.append(err[-300:])
+            if rc != 0:
+                res["violations"].append(dict(kind="first-command-failed", rc=rc, stderr=err[-300:]))
+        n = sum(1 for l in open(trace) if l.startswith("B "))
+        if n != 1:
+            res["violations"].append(dict(kind="first-commands-built-%d-times" % n, stderr=errs))
+        dbs = sorted(os.path.relpath(os.path.join(dp, ".redo"), P) for dp, dn, fn in os.walk(P) if ".redo" in dn)
+        if dbs != [".redo"]:
+            res["violations"].append(dict(kind="first-command-put-the-database-elsewhere", where=dbs))
+        if any("not redoing" in e or "you modified" in e for e in errs):
+            res["violations"].append(dict(kind="own-output-taken-for-a-source", stderr=errs))
+        return res
+    finally:
+        shutil.rmtree(top, ignore_errors=True)
+
+
 def extra_checks(tier, verdict, cov):
     """End-to-end: every ordered pair of spellings of one file on one command line, from several working directories,
     with redo-ifchange, redo and redo -j2: exit 0, the script ran once, exactly one Files row (hence one lock) names it."""
@@ -138,6 +185,15 @@ def extra_checks(tier, verdict, cov):
         if len(seen) <= 8:
             verdict.report(sig, {"engine": "E1-e2e", "check": "e2e", "target": r["target"], "cwd": r["cwd"],
                                  "spellings": r["spellings"], "mode": r["mode"], "violation": v})
+    fjobs = [(root, bindir, c1, s1, c2, s2, i) for i, (c1, s1, c2, s2) in enumerate(FIRST_CMDS)]
+    with concurrent.futures.ProcessPoolExecutor(max_workers=min(8, max(1, common.NCPU))) as ex:
+        for r in ex.map(run_first, fjobs):
+            for v in r["violations"]:
+                sig = {"kind": v["kind"], "first_cwd": r["case"][0], "first_spelling": r["case"][1]}
+                verdict.report(sig, {"engine": "E1-e2e", "check": "first-commands", "case": r["case"], "violation": v})
+                bad.append((r, v))
+    cov["first_commands"] = {"cases": FIRST_CMDS}
+    cov["evaluations"] += len(fjobs)
     cov["end_to_end"] = {"command_lines": len(jobs), "cases": [(t, c, len(sp)) for t, c, sp in e2e_cases(tier)], "modes": modes,
                          "violating": len(bad)}
     cov["evaluations"] += len(jobs)
